@@ -21,12 +21,31 @@ FirstDiff(a, b) ==  \* 0 if equal; else the first index where they differ (or th
        IF \E i \in 1..n : a[i] # b[i] THEN CHOOSE i \in 1..n : a[i] # b[i] /\ \A j \in 1..(i - 1) : a[j] = b[j]
        ELSE n + 1
 
+(* (13.4) DC prediction, redone here on the deserialiser's dequantised residuals: raster order, each   *)
+(* value is predicted from its already reconstructed left / above / diagonal neighbours;              *)
+(* mean(a, b, c) = floor((a + b + c + 1) / 3)  (\div floors, also for negative sums).                  *)
+Mean3(a, b, c) == (a + b + c + 1) \div 3
+RECURSIVE DCAcc(_, _, _)
+DCAcc(flat, w, acc) ==
+  IF Len(acc) = Len(flat) THEN acc
+  ELSE LET k == Len(acc)  x == k % w  y == k \div w
+           pred == IF x = 0 /\ y = 0 THEN 0
+                   ELSE IF y = 0 THEN acc[k]
+                   ELSE IF x = 0 THEN acc[k - w + 1]
+                   ELSE Mean3(acc[k], acc[k - w + 1], acc[k - w]) IN
+       DCAcc(flat, w, Append(acc, flat[k + 1] + pred))
+\* component c (1..3) of the validator's picture v starts with its DC band (level 0), row-major
+DCBandOK(vflat, dc) == dc.r = <<>> \/ dc.w = 0 \/ DCAcc(dc.r, dc.w, <<>>) = SubSeq(vflat, 1, Len(dc.r))
+DCPredictionOK(v, d) ==
+  Len(d.dcres) = 0 \/ (DCBandOK(v.y, d.dcres[1]) /\ DCBandOK(v.c1, d.dcres[2]) /\ DCBandOK(v.c2, d.dcres[3]))
+
 PicClause(v, d) ==
   IF v.hdr # d.hdr THEN <<"HeaderValues", FirstDiff(v.hdr, d.hdr)>>
   ELSE IF v.qm # d.qm THEN <<"QuantMatrix", FirstDiff(v.qm, d.qm)>>
   ELSE IF v.y # d.y THEN <<"Coefficients", FirstDiff(v.y, d.y)>>
   ELSE IF v.c1 # d.c1 THEN <<"Coefficients", FirstDiff(v.c1, d.c1)>>
   ELSE IF v.c2 # d.c2 THEN <<"Coefficients", FirstDiff(v.c2, d.c2)>>
+  ELSE IF ~DCPredictionOK(v, d) THEN <<"DCPrediction", 0>>
   ELSE <<"ok", 0>>
 
 (* structural sanity of what the validator reported (spec-only, logged) *)
